@@ -24,7 +24,8 @@
 (*                          then (compaction state + version write), show, *)
 (*                          maintenance                                    *)
 (*  compactor  "c2" E1-E3  a second, concurrent compaction (as a leveled    *)
-(*                      strategy issues them): every table of L0 into L1;  *)
+(*                      strategy issues them): every table of L0 into L1   *)
+(*                      (declined as a whole when one of them is hidden);  *)
 (*                      same three critical sections as C1-C3.  With       *)
 (*                      CScripted the first compactor is an ordinary       *)
 (*                      compaction too (every table that is not hidden     *)
@@ -211,12 +212,18 @@ E1 ==
     /\ "c2" \in Procs /\ pc["c2"] = "E1" /\ loc["c2"].n < NCompactions
     /\ CScripted \/ OtherAtRest("c")
     /\ LET ids == L0Ids IN
-       /\ ids # {} /\ ids \cap hid = {}
+       /\ ids # {}
        /\ LegalMerge(st, ids, 1)
-       /\ hid' = hid \cup ids
-       /\ loc' = [loc EXCEPT !["c2"] = [n |-> @.n, ids |-> ids, inp |-> MergeInput(st, ids)]]
-    /\ pc' = [pc EXCEPT !["c2"] = "E2"]
-    /\ Sched("c2", "choose", 0)
+       /\ IF ids \cap hid # {}
+          THEN \* the strategy asks for a table another compaction has hidden: the worker
+               \* declines the whole choice (HiddenSet: blocked if ANY of them is hidden)
+               /\ loc' = [loc EXCEPT !["c2"].n = @ + 1]
+               /\ Sched("c2", "choose", 1)
+               /\ UNCHANGED <<hid, pc>>
+          ELSE /\ hid' = hid \cup ids
+               /\ loc' = [loc EXCEPT !["c2"] = [n |-> @.n, ids |-> ids, inp |-> MergeInput(st, ids)]]
+               /\ pc' = [pc EXCEPT !["c2"] = "E2"]
+               /\ Sched("c2", "choose", 0)
     /\ UNCHANGED <<st, A>>
 
 E2 ==
